@@ -215,3 +215,7 @@ package webdoc
 //@   assigns nothing
 //@   fresh_assigns webdoc.Text.*, webdoc.BaseElement.*, webdoc.TextBlock.*
 //@   ensures result != nil && inheap(result) && result == tb.TextElements[0].TextNodes[tb.TextElements[0].LastWordNode]
+
+//@ func (*TextBlock).ApplyToModel()
+//@   requires tb != nil && inheap(tb.TextElements) && forall(j, 0 <= j && j < len(tb.TextElements), tb.TextElements[j] != nil)
+//@   loop 0 invariant tb != nil && inheap(tb.TextElements) && forall(j, 0 <= j && j < len(tb.TextElements), tb.TextElements[j] != nil)
